@@ -422,6 +422,53 @@ def rule_k3(prog, adj):
         except NotEvaluable as e:
             raise Inconclusive('R-K-3', 'Kripke.%s not evaluable: %s' % (
                 name, e), f.where())
+        # a state added after construction (add_node / add_edge of the
+        # graph layer): it is a node, it has successors, but no label entry
+        bad_late = None
+        if name == 'next':
+            try:
+                for ks in structs[:40]:
+                    if len(ks.g.nodes) < 2 or None in ks.g.nodes:
+                        continue
+                    late = sorted(ks.g.nodes)[-1]
+                    env = kripke_env(K, adj, ks, {s: late})
+                    lab = dict(ks.labels)
+                    del lab[late]
+                    env[App('attr', K, Const(LABELS[0]))] = lab
+                    nm += 1
+                    got = None
+                    for (p, v) in res:
+                        if not pc_holds(p, env, I):
+                            continue
+                        if isinstance(v, Raise):
+                            c = I.exc_class(v.exc)
+                            got = c.name if c else 'raise'
+                        else:
+                            try:
+                                got = _freeze(KEval(env).ev(
+                                    deep_snapshot(I, v, p)))
+                            except GraphError as e:
+                                got = 'internal error: %s' % e
+                        break
+                    want = ks.g.succ[late]
+                    if got != want and bad_late is None:
+                        bad_late = (ks, late, got, want)
+            except NotEvaluable as e:
+                raise Inconclusive('R-K-3', 'Kripke.next not evaluable: %s' %
+                                   e, f.where())
+            if bad_late:
+                ks, sv, got, want = bad_late
+                r.fail(Finding(
+                    PROP, 'R-K-3', f.where(), f.short(),
+                    'accessor:next:late-state',
+                    'Kripke.next(%r) on %r, where %r has been added after '
+                    'construction (it is a node of the graph, it has no '
+                    'label entry), gives %r, expected %r: whether a value '
+                    'is a state is decided by the adjacency, not by the '
+                    'labelling' % (sv, ks, sv, _s2(got), _s2(want)),
+                    expected=repr(_s2(want)), found=repr(_s2(got))))
+            else:
+                r.ok()
         r.inst(method=f.short(), models=nm, paths=len(res))
         if bad_none:
             ks, sv, got, want = bad_none
